@@ -191,22 +191,25 @@ def translate(repo, outdir):
     src2 = (
         "(* generated on every run - per-run obligations about the regenerated tables *)\n"
         "From Coq Require Import List NArith ZArith Bool.\nImport ListNotations.\n"
-        "From SAV.sql Require Import Params ParamsRun ParamsDict ParamsEscape ParamsMain.\n"
+        "From SAV.sql Require Import Params ParamsRun ParamsDict ParamsEscape ParamsGuard ParamsMain.\n"
         "From SAV.props Require Import C04.\nRequire Import Gen.Gen_C04.\n\n"
-        "(* the live escape table satisfies the side condition of the escape theorems *)\n"
+        "(* the live escape table is the one the refutation witnesses were computed with *)\n"
+        "Lemma gen_tab_same : gen_tab = sa_tab.\nProof. reflexivity. Qed.\n"
+        "(* ... and satisfies the side conditions of the escape theorems *)\n"
         "Lemma gen_tab_closed : table_closed gen_tab = true.\nProof. vm_compute; reflexivity. Qed.\n"
+        "Lemma gen_tab_nontrivial : table_nontrivial gen_tab = true.\nProof. vm_compute; reflexivity. Qed.\n"
         "(* BIND_TEMPLATES instantiate to the placeholder texts the model renders, for every name *)\n"
         "Lemma gen_templates_ok : forall n, map (fun t => pyfmt t n) gen_templates = model_templates n.\n"
-        "Proof. intro n. reflexivity. Qed.\n"
+        "Proof. intro n. cbn. rewrite ?app_nil_r. reflexivity. Qed.\n"
         "(* the property theorems instantiated with the table the code has NOW *)\n"
         "Theorem gen_c04_escaped_names_clean : forall n, needs_esc gen_tab (esc gen_tab n) = false.\n"
         "Proof. exact (c04_escaped_name_needs_no_escape gen_tab gen_tab_closed). Qed.\n"
         "Theorem gen_c04_escape_collides : exists a b, a <> b /\\ esc gen_tab a = esc gen_tab b.\n"
-        "Proof. exact (c04_escape_not_injective_refuted gen_tab gen_tab_closed (eq_refl : table_nontrivial gen_tab = true)). Qed.\n"
+        "Proof. exact (c04_escape_not_injective_refuted gen_tab gen_tab_closed gen_tab_nontrivial). Qed.\n"
         "Theorem gen_c04_all_styles : forall lit empty ps inp, guard gen_tab inp = true ->\n"
         "  exists ts fp sp, run gen_tab lit empty ps inp = Ok (ts, fp) /\\ inline_spec lit empty inp = Some sp /\\\n"
         "                   inline ps ts fp = Some sp.\n"
-        "Proof. exact (c04_all_styles gen_tab). Qed.\n"
+        "Proof. exact (c04_all_styles_guarded gen_tab). Qed.\n"
         "Print Assumptions gen_c04_all_styles.\nPrint Assumptions gen_c04_escape_collides.\n"
     )
     p = os.path.join(outdir, "Gen_C04.v")
@@ -553,21 +556,33 @@ def derive_one(R):
     return {"in": [toks, [pack(n) for n in order], kinds, values, params]}
 
 
-def derive(recipes):
+def derive(path):
+    """runs in the impl interpreter; the recipes travel in a file (argv would be too long)"""
+    import json
+
+    with open(path) as f:
+        recipes = json.load(f)
     return [derive_one(R) for R in recipes]
 
 
 def _derive_cases(recs):
     """orchestrator side: recipes [(recipe, kind)] -> cases"""
+    import json
+    import tempfile
+
     from vlib import implcall
 
+    with tempfile.NamedTemporaryFile("w", suffix=".json", delete=False) as tf:
+        json.dump([r for r, _ in recs], tf)
+        path = tf.name
+    try:
+        ins = implcall.call("specs.c04", "derive", path)
+    finally:
+        os.remove(path)
     out = []
-    for i in range(0, len(recs), 2000):
-        part = recs[i : i + 2000]
-        ins = implcall.call("specs.c04", "derive", [r for r, _ in part])
-        for (r, kind), d in zip(part, ins):
-            if "in" in d:
-                out.append({"in": d["in"], "recipe": r, "kind": kind})
+    for (r, kind), d in zip(recs, ins):
+        if "in" in d:
+            out.append({"in": d["in"], "recipe": r, "kind": kind})
     return out
 
 
